@@ -445,7 +445,8 @@ def _inline_body(st, callee, caller_names, func):
 
 
 from ..lib_C01 import (class_methods, expand_private_calls,  # noqa: E402,F401,F811
-                       module_function, module_value)
+                       module_function, module_value, propagate_copies,
+                       scalarise_records)
 
 
 def _counted_while_to_for(func):
@@ -565,8 +566,13 @@ def wfunc(repo, rel, qual):
     """function with calls to private helpers expanded (one level), locals
     that alias `self.<attr>` resolved and counted while-loops written as
     for-range loops"""
-    return _counted_while_to_for(_deref_aliases(
-        expand_private_calls(repo, rel, repo.func(rel, qual))))
+    f0 = repo.func(rel, qual)
+    f = expand_private_calls(repo, rel, f0)
+    g = scalarise_records(repo, rel, f)
+    if g is not f:
+        # record fields became locals that are copied around
+        g = propagate_copies(g)
+    return _counted_while_to_for(_deref_aliases(g))
 
 
 # ----------------------------------------------------------------------
@@ -713,7 +719,20 @@ def r11_frame(ctx, func, fr, sym, tag):
     ctx.ob("R1.1", ok, "a new dataset has the length of the data" if ok
            else f"a new dataset gets length {got}, not the length of the "
            f"data", node=fr.create, label=f"{tag}: new dataset length")
-    # -- open side
+    # -- open side (the offset may be a copy of the local that read the
+    # stored length: the read is what counts, also for the ordering)
+    def origin(a):
+        hops = 0
+        while isinstance(a.value, ast.Name) and hops < 5:
+            ds = [n for n in walk(func) if isinstance(n, ast.Assign)
+                  and any(isinstance(t, ast.Name) and t.id == a.value.id
+                          for t in n.targets)]
+            if len(ds) != 1:
+                break
+            a = ds[0]
+            hops += 1
+        return a
+    fr.o_open = [origin(a) for a in fr.o_open]
     v = [a.value for a in fr.o_open]
     ok = len(v) == 1 and is_stored_len(v[0], fr.D)
     ctx.ob("R1.1", ok, "the append offset is the stored length" if ok else
@@ -4078,6 +4097,52 @@ def _width_by_chain_raw(src):
     return _width_by_chain(src, measured="lines")
 
 
+def _exit_body_in_helper(src):
+    old = ('            self.h5file.require_group("events")\n'
+           '            if len(self.h5file["events"]):\n'
+           '                self.rectify_metadata()\n'
+           '            self.version_brand()\n')
+    head = "    @staticmethod\n    def get_best_nd_chunks("
+    if src.count(old) != 1 or src.count(head) != 1:
+        return src
+    src = src.replace(old, "            self._finalize_h5file()\n")
+    return src.replace(
+        head, "    def _finalize_h5file(self):\n"
+        '        self.h5file.require_group("events")\n'
+        '        if len(self.h5file["events"]):\n'
+        "            self.rectify_metadata()\n"
+        "        self.version_brand()\n\n" + head)
+
+
+def _metadata_by_generator(src, skip=False):
+    first = "        # Write metadata\n        for sec in meta:\n"
+    a = src.find(first)
+    b = src.find("    def store_table(self, name, cmp_array):", a)
+    if a < 0 or b < 0 or src.count(_META_STORE) != 1:
+        return src
+    gen = ("\n\ndef _iter_metadata_attributes(meta):\n"
+           "    for sec in meta:\n"
+           "        for ck in meta[sec]:\n"
+           '            idk = f"{sec}:{ck}"\n'
+           "            value = meta[sec][ck]\n"
+           "            if isinstance(value, bytes):\n"
+           '                value = value.decode("utf-8")\n'
+           + ("            if value is None:\n                continue\n"
+              if skip else "")
+           + '            if sec == "user":\n'
+           "                yield idk, value\n"
+           "            else:\n"
+           "                convfunc = dfn.get_config_value_func(sec, ck)\n"
+           "                yield idk, convfunc(value)\n")
+    return (src[:a] + "        for idk, value in "
+            "_iter_metadata_attributes(meta):\n"
+            "            self.h5file.attrs[idk] = value\n\n" + src[b:] + gen)
+
+
+def _metadata_by_generator_skipping(src):
+    return _metadata_by_generator(src, skip=True)
+
+
 MUTANTS = [
     # R1.1
     ("ndarray: offset read after the resize", WR,
@@ -4228,6 +4293,8 @@ MUTANTS = [
      ('            if (txt_dset.dtype.kind == "S"\n',
       '            if (self.mode == "append"\n'
       '                    and txt_dset.dtype.kind == "S"\n'), "R1.3"),
+    ("metadata generator skips None values", WR,
+     _metadata_by_generator_skipping, "R1.A"),
     ("metadata equal to the stored value are not rewritten", WR,
      _metadata_skip_equal, "R1.A"),
     ("try/except get-or-create starts an unknown group at 0", WR,
@@ -4401,6 +4468,11 @@ TWINS = [
      _ragged_in_module_helper),
     ("width as max(itertools.chain([min], map(len, encoded)))", WR,
      _width_by_chain),
+    # round 6
+    ("__exit__ body moved into _finalize_h5file()", WR,
+     _exit_body_in_helper),
+    ("metadata attributes produced by a module-level generator", WR,
+     _metadata_by_generator),
 ]
 
 # mutants that re-introduce the repaired defects (apply to the fixed tree)
